@@ -123,8 +123,11 @@ class SVRPEnv(RL4COEnvBase):
         """
         current_node = td["action"][:, None]  # Add dimension for step
 
-        # if I go back to the depot, send out next technician
-        td["current_tech"] += (current_node == 0).int()
+        # if I go back to the depot, send out next technician (the last technician stays in charge: a finished
+        # instance keeps returning to the depot while other instances of the batch are still running)
+        td["current_tech"] = torch.clamp(
+            td["current_tech"] + (current_node == 0).int(), max=td["techs"].size(-2) - 1
+        )
 
         # Add one dimension since we write a single value
         visited = td["visited"].scatter(-2, current_node[..., None], 1)
